@@ -327,11 +327,54 @@ def unbounded_stream_leg(ns, res, rng, count):
     res.sample({'leg': 'unbounded-stream', 'runs': count, 'budget_bytes': 256 * 1024, 'cli_feed_limit_bytes': 48 * 1024 * 1024})
 
 
+def large_leg(ns, res, rng, count):
+    """Tables of several hundred to two thousand records with few distinct values: whatever an engine buffers, batches or prunes by size is exercised
+    (sort buffers, dedup sets, bound handling far beyond the first records)."""
+    js = common.JsLeg(res, PROPERTY, classify_js_only)
+    try:
+        for it in range(count):
+            nrows = rng.choice([257, 300, 513, 700, 1100, 2000])
+            w = rng.choice([2, 3])
+            cells = rng.choice([['a', 'b', 'ab'], ['1', '2', '10', '3', '7'], gq.SMALL_CELLS, [str(v) for v in range(12)]])
+            A = [[rng.choice(cells) for _ in range(w)] for _ in range(nrows)]
+            feats = set(rng.choice([['order', 'distinct'], ['order', 'distinct'], ['order'], ['distinct'], ['count'], ['order', 'count'], ['order', 'distinct', 'where'], ['order', 'where']]))
+            feats.add('nostar')
+            T = {'A': A, 'B': None, 'a_names': None, 'b_names': None}
+            g = gq.G(rng, A[:40], None, None, None)
+            q = g.gen_select(feats)
+            case, ref, o, ok = run_py_case(ns, res, q, T)
+            res.count('large_table_cases')
+            res.count('shape:' + common.feature_sig(q))
+            if it % 3 == 0:
+                js.add(case, ref, False)
+            if ref.error is not None or o.error is not None:
+                continue
+            base_rows = [list(r) for r in o.rows]
+            res.nontrivial('large', case['query_text'], nrows, repr(A[:3]))
+            nd = len(base_rows)
+            for nb in sorted(set([0, 1, 2, 5, max(0, nd - 1), nd, nd + 1, 50, 128, 255, 256, 257, 600])):
+                qn = copy.deepcopy(q)
+                qn['top'] = nb
+                qn['top_kw'] = 'top' if nb % 2 else 'limit'
+                casen, refn, on, okn = run_py_case(ns, res, qn, T)
+                res.count('large_table_bound_runs')
+                if on.error is None and not refsem.same_rows(on.rows, base_rows[:nb]):
+                    res.violation('py:top-is-not-prefix-of-unbounded:' + common.feature_sig(qn), '[py] %s over %d records -> %d records %r... but the same query without the bound yields %d records %r...' % (casen['query_text'], nrows, len(on.rows), on.rows[:6], nd, base_rows[:6]),
+                                  dict(casen, engine='py', A=A[:50], note='table truncated in the replay file: %d records' % nrows))
+                if nb in (5, 256) and it % 3 == 0:
+                    js.add(casen, refn, False)
+            if it % 17 == 0:
+                res.sample({'leg': 'large', 'query': case['query_text'], 'records': nrows, 'distinct_result_records': nd})
+    finally:
+        js.close()
+
+
 def plan(tier, seed):
     k = NSHARDS[tier]
     specs = [{'kind': 'bases', 'k': k, 'i': i, 'n': BASES[tier] // k} for i in range(k)]
     specs += [{'kind': 'unbounded', 'i': i, 'n': UNBOUNDED[tier]} for i in range(4)]
     specs += [{'kind': 'unbounded-stream', 'i': i, 'n': 60 if tier == 'quick' else 600} for i in range(2)]
+    specs += [{'kind': 'large', 'i': i, 'n': 12 if tier == 'quick' else 150} for i in range(4)]
     specs.append({'kind': 'js-values', 'n': 300 if tier == 'quick' else 5000})
     return specs
 
@@ -347,6 +390,9 @@ def run_shard(spec, res):
         return
     if spec['kind'] == 'js-values':
         js_values_leg(res, rng, spec['n'])
+        return
+    if spec['kind'] == 'large':
+        large_leg(ns, res, rng, spec['n'])
         return
     js = common.JsLeg(res, PROPERTY, classify_js_only)
     try:
@@ -389,8 +435,8 @@ def run_shard(spec, res):
 def summarize(tier, seed, m):
     shapes = sorted(k[6:] for k in m['counters'] if k.startswith('shape:'))
     return {
-        'rule': 'base queries over tables with many duplicate keys: ORDER BY 1-2 keys (str / int / len / mixed) x ASC/DESC x {none, DISTINCT, DISTINCT COUNT} x {WHERE, JOIN, UNNEST}; for each base every bound n in 0..|out|+1 (TOP and LIMIT) is executed and compared with the prefix of the unbounded run and with the reference; ASC/DESC pairs compared as exact reverses; streaming bounded queries are run over an unbounded lazy input with a read budget equal to the position of the record producing output n+1. the CSV front-end over an endless byte stream (three policies, utf-8 / latin-1, LF / CRLF, header, comment lines) with a 256 KiB byte budget, and the command line fed an endless standard input (violation only after 48 MiB were consumed: logical budgets, no wall-clock verdicts), for bounded streaming SELECTs (UPDATE ignores LIMIT and is not a bounded query); distinct_nontrivial = distinct bases with more than one output row + distinct unbounded runs.',
-        'required': ['unbounded_stream_runs', 'stream_bytes_within_budget', 'cli_unbounded_stdin_runs', 'js_value_cases', 'py_cases', 'bound_runs', 'asc_desc_pairs', 'unbounded_runs', 'reads_within_budget', 'js_cases', 'js_unbounded_runs', 'js_reads_within_budget'],
+        'rule': 'base queries over tables with many duplicate keys: ORDER BY 1-2 keys (str / int / len / mixed) x ASC/DESC x {none, DISTINCT, DISTINCT COUNT} x {WHERE, JOIN, UNNEST}; for each base every bound n in 0..|out|+1 (TOP and LIMIT) is executed and compared with the prefix of the unbounded run and with the reference; ASC/DESC pairs compared as exact reverses; streaming bounded queries are run over an unbounded lazy input with a read budget equal to the position of the record producing output n+1. the CSV front-end over an endless byte stream (three policies, utf-8 / latin-1, LF / CRLF, header, comment lines) with a 256 KiB byte budget, and the command line fed an endless standard input (violation only after 48 MiB were consumed: logical budgets, no wall-clock verdicts), for bounded streaming SELECTs (UPDATE ignores LIMIT and is not a bounded query); tables of 257-2000 records over 3-12 distinct cell values under ORDER BY / DISTINCT / DISTINCT COUNT / WHERE combinations with bounds 0, 1, 2, 5, 50, 128, 255-257, 600 and around the size of the unbounded result; distinct_nontrivial = distinct bases with more than one output row + distinct unbounded runs.',
+        'required': ['large_table_cases', 'large_table_bound_runs', 'unbounded_stream_runs', 'stream_bytes_within_budget', 'cli_unbounded_stdin_runs', 'js_value_cases', 'py_cases', 'bound_runs', 'asc_desc_pairs', 'unbounded_runs', 'reads_within_budget', 'js_cases', 'js_unbounded_runs', 'js_reads_within_budget'],
         'extra': {'shapes_seen': shapes},
         'assumptions': ['termination clause restated as bounded progress: reads <= position of the record producing output n+1; inputs on which output n+1 never exists are not used'],
     }
